@@ -575,6 +575,60 @@ fn exec(op: &str, args: &[Sexp]) -> Ans {
 			}
 			Ans::pass()
 		}
+		("oracle-remap-attrs", [ns, jar]) => {
+			let ns = tr!(nests_from(ns)); let jar = tr!(jar_from(jar));
+			let classes = jar_classes(&jar);
+			if classes.is_empty() { return Ans::out_of_domain(); }
+			let (kept, created) = spec_filter(&classes, &ns);
+			let kept_table = table_of(&kept);
+			if cyclic(&kept_table) { return Ans::out_of_domain(); }
+			// same domain as remap-names: the expected entry names are pairwise different; no array names in the table
+			let mut keys: Vec<JavaString> = Vec::new();
+			for name in &created { let mut k = spec_name(&kept_table, name); k.push_str(".class"); keys.push(k); }
+			for (k, e) in &jar.entries {
+				let kj = js(k);
+				keys.push(match (&e.content, kj.strip_suffix(".class")) {
+					(JarEntryEnum::Class(_), Some(b)) => { let mut x = spec_name(&kept_table, b); x.push_str(".class"); x }
+					_ => kj.clone(),
+				});
+			}
+			for (i, k) in keys.iter().enumerate() { if keys[..i].contains(k) { return Ans::out_of_domain(); } }
+			if kept.iter().any(|n| n.class_name.as_inner().starts_with('[') || n.encl_class_name.as_inner().starts_with('[')) { return Ans::out_of_domain(); }
+			let Ok(out) = dukenest::nest_jar(true, &jar, clone_nests(&ns)) else { return Ans::fail("nest_jar_err") };
+			let out_classes = jar_classes(&out);
+			for n in &kept {
+				let new_name = spec_name(&kept_table, n.class_name.as_inner());
+				let new_encl = spec_name(&kept_table, n.encl_class_name.as_inner());
+				let (inner, local, anon) = (matches!(n.nest_type, NestType::Inner), matches!(n.nest_type, NestType::Local), matches!(n.nest_type, NestType::Anonymous));
+				let mut found = false;
+				for c in out_classes.iter().filter(|c| c.name.as_inner() == &new_name) {
+					found = true;
+					let Some(ic) = c.inner_classes.as_ref().and_then(|v| v.last()) else { return Ans::fail("inner_classes_entry_missing") };
+					if ic.inner_class.as_inner() != &new_name { return Ans::fail("inner_classes_inner_name") }
+					match (&ic.outer_class, inner) {
+						(Some(o), true) => if o.as_inner() != &new_encl { return Ans::fail("inner_classes_outer_name") },
+						(None, false) => {}
+						_ => return Ans::fail("inner_classes_outer_presence"),
+					}
+					let want_simple = if inner || local { Some(strip_digits(n.inner_name.as_inner()).to_owned()) } else { None };
+					if ic.inner_name != want_simple || ic.flags != n.inner_access { return Ans::fail("inner_classes_simple_name_or_flags") }
+					if anon || local {
+						let Some(em) = &c.enclosing_method else { return Ans::fail("enclosing_method_missing") };
+						if em.class.as_inner() != &new_encl { return Ans::fail("enclosing_method_class_not_renamed") }
+						match (&em.method, &n.encl_method) {
+							(None, None) => {}
+							(Some(a), Some(b)) => {
+								if a.name != b.name { return Ans::fail("enclosing_method_name") }
+								if spec_desc(&kept_table, b.desc.as_inner()).as_deref() != Some(a.desc.as_inner()) { return Ans::fail("enclosing_method_desc_not_renamed") }
+							}
+							_ => return Ans::fail("enclosing_method_method_presence"),
+						}
+					}
+				}
+				if !found { return Ans::fail("nested_class_missing") }
+			}
+			Ans::pass()
+		}
 		("oracle-cyclic-err", [ns]) => {
 			let ns = tr!(nests_from(ns));
 			let apply_err = !matches!(safe_apply(empty_mappings(), &ns), Applied::Ok(_));
@@ -930,6 +984,7 @@ fn gen(r: &mut Rng, tier: Tier, out: &mut Out) {
 		out.op("oracle-names-agree", &[ns.clone(), jar.clone()]);
 		out.op("oracle-nest-jar-spec", &[ns.clone(), jar.clone()]);
 		out.op("oracle-remap-names", &[ns.clone(), jar.clone()]);
+		out.op("oracle-remap-attrs", &[ns.clone(), jar.clone()]);
 		out.op("oracle-cyclic-err", &[ns.clone()]);
 		// 2. scenes in which every nest applies: the domain of names_agree
 		let cfg2 = SceneCfg { max_tops: r.range(1, 3), max_nests: r.range(1, 6), weird: false, all_apply: true, underscores: false };
@@ -939,6 +994,7 @@ fn gen(r: &mut Rng, tier: Tier, out: &mut Out) {
 		if i % 3 == 0 { out.op("nest-jar", &[Sexp::bool(true), ns2.clone(), jar_sexp(&sc2.jar)]); }
 		if i % 3 == 1 { out.op("oracle-nest-jar-spec", &[ns2.clone(), jar_sexp(&sc2.jar)]); }
 		out.op("oracle-remap-names", &[ns2.clone(), jar_sexp(&sc2.jar)]);
+		out.op("oracle-remap-attrs", &[ns2.clone(), jar_sexp(&sc2.jar)]);
 		// 3. mappings side
 		let cfg3 = SceneCfg { max_tops: r.range(1, 3), max_nests: r.range(0, 5), weird: r.chance(1, 4), all_apply: false, underscores: r.chance(1, 5) };
 		let sc3 = gen_scene(r, &cfg3, out);
@@ -979,6 +1035,7 @@ fn gen(r: &mut Rng, tier: Tier, out: &mut Out) {
 				out.stats.hit("exhaustive:filter-one-nest");
 				out.op("nest-jar", &[Sexp::bool(bits & 1 == 0), nests_sexp(&[nest.clone()]), jar_sexp(&jar)]);
 				out.op("oracle-remap-names", &[nests_sexp(&[nest.clone()]), jar_sexp(&jar)]);
+				out.op("oracle-remap-attrs", &[nests_sexp(&[nest.clone()]), jar_sexp(&jar)]);
 				out.op("oracle-nest-jar-spec", &[nests_sexp(&[nest]), jar_sexp(&jar)]);
 			}
 		}
@@ -1000,6 +1057,35 @@ fn gen(r: &mut Rng, tier: Tier, out: &mut Out) {
 					out.op("nest-jar", &[Sexp::bool(order == 0), nests_sexp(&ns), jar_sexp(&jar)]);
 					out.op("oracle-nest-jar-spec", &[nests_sexp(&ns), jar_sexp(&jar)]);
 					out.op("oracle-names-agree", &[nests_sexp(&ns), jar_sexp(&jar)]);
+					out.op("oracle-remap-names", &[nests_sexp(&ns), jar_sexp(&jar)]);
+					out.op("oracle-remap-attrs", &[nests_sexp(&ns), jar_sexp(&jar)]);
+				}
+			}
+		}
+	}
+	// exhaustive small scope 2b: a leaf whose enclosing class is itself nested (depth 2 and 3), every kind of leaf with and
+	// without an enclosing method, renamed (remap = true): the synthesised attributes must carry the NEW names
+	for (kl, il) in [('a', "1"), ('l', "1Loc"), ('i', "Leaf")] {
+		for with_method in [false, true] {
+			for (km, im) in [('i', "Mid"), ('a', "3")] {
+				for depth3 in [false, true] {
+					let m = ("run".to_owned(), "(LA;)LB;".to_owned());
+					if kl == 'l' && !with_method { continue; }
+					let mut ns = vec![
+						GNest { kind: km, class: "A".into(), encl: "p/Top".into(), method: None, inner: im.into(), access: 8 },
+						GNest { kind: kl, class: "B".into(), encl: "A".into(), method: if with_method && kl != 'i' { Some(m.clone()) } else { None }, inner: il.into(), access: 0 },
+					];
+					let mut jar = vec![GEntry::Class("p/Top.class".into(), GClass::new("p/Top", 9))];
+					let mut a = GClass::new("A", 8); if kl == 'l' { a.methods.push(m.clone()); }
+					jar.push(GEntry::Class("A.class".into(), a));
+					jar.push(GEntry::Class("B.class".into(), GClass::new("B", 8)));
+					if depth3 {
+						ns.push(GNest { kind: 'a', class: "C".into(), encl: "B".into(), method: None, inner: "2".into(), access: 0 });
+						jar.push(GEntry::Class("C.class".into(), GClass::new("C", 8)));
+					}
+					out.stats.hit("exhaustive:nested-enclosing-remap");
+					out.op("nest-jar", &[Sexp::bool(true), nests_sexp(&ns), jar_sexp(&jar)]);
+					out.op("oracle-remap-attrs", &[nests_sexp(&ns), jar_sexp(&jar)]);
 					out.op("oracle-remap-names", &[nests_sexp(&ns), jar_sexp(&jar)]);
 				}
 			}
